@@ -15,7 +15,8 @@ def countOcc (l : List Nat) (k : Nat) : Nat := (l.filter (· == k)).length
 
 /-- every queued key exists with its flag set; every flagged stream is queued exactly once -/
 def invQueue (s : Streams) (q : QName) (name : String) : List String :=
-  let l := s.getQ q
+  -- the `NextAccept` link is shared by `recv.pending_accept` and every stream's `pending_push_promises`
+  let l := s.getQ q ++ (if q == .pendingAccept then s.store.slab.flatMap (·.pendingPushPromises) else [])
   let a := l.filterMap fun k => match s.store.get? k with
     | none => some s!"{name}: dangling key {k}"
     | some st => if st.isQueued q then none else some s!"{name}: key {k} (stream {st.id}) queued without flag"
@@ -83,6 +84,8 @@ def violations (c : Conn) : List String :=
     match p.inFlightDataFrame with
     | .nothing => if c.codec.w.next.isSome || c.codec.w.lastDataFrame.isSome then ["P.in_flight Nothing but the codec holds a DATA frame"] else []
     | _ => if c.codec.w.next.isNone && c.codec.w.lastDataFrame.isNone then ["P.in_flight set but the codec holds no DATA frame"] else []
-  qa ++ b1 ++ b2 ++ b3 ++ b4 ++ cl ++ dl ++ e ++ f ++ g ++ i
+  -- J: no event of a removed stream left behind in `recv.buffer`
+  let j := if s.recvBufferLeaked != 0 then [s!"B.recv buffer holds {s.recvBufferLeaked} entries of removed streams"] else []
+  qa ++ b1 ++ b2 ++ b3 ++ b4 ++ cl ++ dl ++ e ++ f ++ g ++ i ++ j
 
 end H2V.Model.Conn
